@@ -62,6 +62,22 @@ UNINIT = _Uninit()
 
 # ---------------------------------------------------------------- helpers
 ENGINE = None  # the engine of the running exploration (one per process)
+DUMP_DIR = os.environ.get("SYMX_DUMP")            # development: dump every DUMP_EVERY-th query as SMT-LIB2 (tools/crosscheck.py)
+DUMP_EVERY = int(os.environ.get("SYMX_DUMP_EVERY", "25"))
+_DUMPED = [0]
+
+
+def _dump_query(cs, result, nonlinear):
+    try:
+        sol = z3.Solver()
+        for c in cs:
+            sol.add(c)
+        _DUMPED[0] += 1
+        name = os.path.join(DUMP_DIR, "q_%d_%d_%s_%s.smt2" % (os.getpid(), _DUMPED[0], "nra" if nonlinear else "lra", result))
+        with open(name, "w") as f:
+            f.write(sol.to_smt2())
+    except Exception:
+        pass
 
 _CONST_CACHE = {}
 
@@ -473,6 +489,8 @@ class Engine:
             if r == z3.sat:
                 m = sol.model()
         dt = time.time() - t
+        if DUMP_DIR and self.stats.queries % DUMP_EVERY == 0:
+            _dump_query(cs, str(r), self.nonlinear)
         st = self.stats
         st.queries += 1
         st.solver_s += dt
